@@ -211,6 +211,7 @@ func (e Env) FirstOf(a, b interface{}) interface{} {
 	return b
 }
 func (e Env) CountAny(xs []interface{}) int { return len(xs) }
+func (e Env) CountAny2(i int, xs []interface{}) int { return i + 10*len(xs) }
 
 // Tuple also has the fast-call shape and hands its argument slice back to the caller.
 func (e Env) Tuple(xs ...interface{}) interface{} { return xs }
@@ -414,7 +415,8 @@ func AsMap(e Env) map[string]interface{} {
 var intBoundary = []int64{0, 1, -1, 2, -2, 3, 7, 127, 128, -128, -129, 255, 256, 32767, 32768, -32768, 65535, 65536,
 	math.MaxInt32, math.MinInt32, math.MaxInt32 + 1, math.MaxInt64, math.MinInt64, math.MaxInt64 - 1, math.MinInt64 + 1}
 var uintBoundary = []uint64{0, 1, 2, 3, 127, 128, 255, 256, 32767, 32768, 65535, 65536, math.MaxInt32, math.MaxUint32, math.MaxInt64, math.MaxInt64 + 1, math.MaxUint64}
-var floatBoundary = []float64{0, 1, -1, 0.5, -2.5, 1.5, 3, 255, 256, 65536, 1e10, -1e10, 3e38, 1e300, -1e300, 9.223372036854775807e18, 5e-324, 0.1, 100}
+var floatBoundary = []float64{0, 1, -1, 0.5, -2.5, 1.5, 3, 255, 256, 65536, 1e10, -1e10, 3e38, 1e300, -1e300, 9.223372036854775807e18, 5e-324, 0.1, 100,
+	9007199254740992, -9007199254740992, 9007199254740993, 16777216, -16777216} // 2^53 and 2^24: adding 1 is absorbed, adding 2 is not
 
 func genIntOfKind(t *rapid.T, k Kind, label string) int64 {
 	bits := map[Kind]uint{KInt: 64, KInt8: 8, KInt16: 16, KInt32: 32, KInt64: 64}[k]
